@@ -160,7 +160,10 @@ def m_table():
     import m_stats
     import m_dist
     import m_nuts
+    import m_hmc
     return {
+        "C02": [("c02_hmc_step", m_hmc.c02_hmc_step), ("c02_reversible", m_hmc.c02_reversible)],
+        "C07": [("c07_hmc_hidden_randomness", m_hmc.c07_hmc_hidden_randomness)],
         "C04": [("c04_adaptation", m_nuts.c04_adaptation)],
         "C03": [("c03_build_tree", m_nuts.c03_build_tree)],
         "C15": [("c15_isotropic", m_dist.c15_isotropic), ("c15_gaussian2d", m_dist.c15_gaussian2d)],
